@@ -466,6 +466,23 @@ func Run(p Plan) (v hk.Verdict) {
 				return v
 			}
 
+			// substitution by a record made without the key: the encoding of another resource by the layers below the
+			// encryption, and its plain protobuf encoding
+			for si, sub := range []store.Marshaler{buildStack(p.Stack[:n-1], p.MinSz, key1), store.ProtobufMarshaler{}} {
+				what := []string{"the stack below the encryption layer", "plain protobuf"}[si]
+
+				forged, err := sub.MarshalResource(other)
+				if err != nil {
+					continue
+				}
+
+				if rr, err := m.UnmarshalResource(forged); err == nil {
+					v.Failf("stack %v: the encrypted record replaced by an unencrypted record (%s) of another resource was accepted and decoded into %v", p.Stack, what, rr.Metadata())
+
+					return v
+				}
+			}
+
 			v.Label("tamper-checked")
 		}
 	}
